@@ -79,7 +79,13 @@ def _strip_x3(text: str, log: list) -> str:
 
 def parse_template(path: str):
     """-> list of segments: ('raw', text) | ('extract', dict)"""
-    lines = open(path, encoding="utf-8").read().split("\n")
+    lines = []
+    for ln in open(path, encoding="utf-8").read().split("\n"):
+        if ln.strip().startswith("//@ include "):
+            inc = os.path.join(os.path.dirname(path), ln.strip().split()[2])
+            lines += open(inc, encoding="utf-8").read().split("\n")
+        else:
+            lines.append(ln)
     segs = []
     meta = {"contract_lemmas": set(), "min_verified": 1}
     i = 0
@@ -123,8 +129,8 @@ def parse_template(path: str):
                 elif t.startswith("//@ loop "):
                     n = int(t.split()[2])
                     blk["loops"][n], i = multiline(i)
-                elif t.startswith("//@ before `") or t.startswith("//@ after `"):
-                    m = re.match(r"//@ (before|after) `(.*)` <<", t)
+                elif t.startswith("//@ before `") or t.startswith("//@ after `") or t.startswith("//@ afterall `") or t.startswith("//@ beforeall `"):
+                    m = re.match(r"//@ (before|after|afterall|beforeall) `(.*)` <<", t)
                     body, i = multiline(i)
                     blk["inserts"].append((m.group(1), m.group(2), body))
                 elif t.startswith("//@ afterloop "):
@@ -134,6 +140,10 @@ def parse_template(path: str):
                 elif t.startswith("//@ bodystart <<"):
                     body, i = multiline(i)
                     blk["inserts"].append(("bodystart", None, body))
+                elif t.startswith("//@ rewrite-re? "):
+                    # optional: the pattern may match nowhere (used to cover every comparison operator at a site)
+                    m = re.match(r"//@ rewrite-re\? (\S+) `(.*)` => `(.*)`", t)
+                    blk["rewrites"].append((m.group(1), m.group(2), m.group(3), "opt"))
                 elif t.startswith("//@ rewrite-re "):
                     m = re.match(r"//@ rewrite-re (\S+) `(.*)` => `(.*)`", t)
                     blk["rewrites"].append((m.group(1), m.group(2), m.group(3), True))
@@ -180,6 +190,8 @@ def build_item(repo: str, blk: dict, report: dict):
         else:
             n = text.count(a)
             new = text.replace(a, b)
+        if n == 0 and is_re == "opt":
+            continue
         if n == 0:
             raise LostAnchor(f"rewrite anchor `{a}` not found in {blk['path']}")
         log.append((rule, f"`{a}` => `{b}` x{n}"))
@@ -214,7 +226,8 @@ def build_item(repo: str, blk: dict, report: dict):
     p_open = mask.find("(", kw)
     p_close = match_brace(mask, p_open)
     b_open = find_body_open(mask, p_close + 1)
-    b_close = match_brace(mask, b_open)
+    bodiless = mask[b_open] == ";"
+    b_close = b_open if bodiless else match_brace(mask, b_open)
     sig = text[:b_open].rstrip()
     body = text[b_open:b_close + 1]
     if blk["ret"]:
@@ -241,6 +254,10 @@ def build_item(repo: str, blk: dict, report: dict):
     if blk["dec"]:
         out.append(("    decreases", "glue"))
         out += [(l, "dec") for l in blk["dec"].split("\n")]
+    if bodiless:
+        # a required trait method: signature + contract, terminated by ';'
+        out.append((";", "glue"))
+        return out
     if blk["external_body"]:
         out.append(("{ unimplemented!() }", "glue"))
         return out
@@ -265,13 +282,21 @@ def build_item(repo: str, blk: dict, report: dict):
         k = body.find(anchor)
         if k < 0:
             raise LostAnchor(f"{key}: anchor `{anchor}` not found")
-        if where == "before":
-            ls = body.rfind("\n", 0, k) + 1
-            ins.append((ls, txt + "\n", "proof"))
-        else:
-            le = body.find("\n", k)
-            le = len(body) if le < 0 else le
-            ins.append((le, "\n" + txt, "proof"))
+        ks = [k]
+        if where.endswith("all"):
+            while True:
+                k2 = body.find(anchor, ks[-1] + len(anchor))
+                if k2 < 0:
+                    break
+                ks.append(k2)
+        for k in ks:
+            if where.startswith("before"):
+                ls = body.rfind("\n", 0, k) + 1
+                ins.append((ls, txt + "\n", "proof"))
+            else:
+                le = body.find("\n", k)
+                le = len(body) if le < 0 else le
+                ins.append((le, "\n" + txt, "proof"))
     ins.sort(key=lambda t: t[0])
     pos = 0
     pieces = []
